@@ -386,6 +386,34 @@ func runC04(r *core.Run) {
 		s.Transitions.Store(s.Evals.Load())
 		s.Done()
 	}
+	// script URLs arriving as ready-made markup in every sink the renderer writes to: in safe mode the markup must come out
+	// inert, so no href/src with such a URL may exist in the tokenized output (and the output must tokenize at all)
+	{
+		pays := []string{"<a href=\"javascript:alert(1)\">", "<img src=javascript:alert(1)>", "<a href='vbscript:x'>y</a>", "<a\nhref=\"javascript:x\">", "\"><a href=\"javascript:x\">", "<script src=\"file:///x\">"}
+		shapes := []string{"§", "x\n§", "§\nx", "x\n§\ny", "§ §", "x\n§\n§\ny"}
+		for _, cn := range []string{"core", "all+cjk+attr+autoid", "all+attr+autoid+xhtml+hardwraps"} {
+			cfg := core.MustCfg(cn)
+			var docs [][]byte
+			for _, ctx := range sinkContexts {
+				live := false
+				for _, e := range ctx.exts {
+					if e == "core" || strings.HasPrefix(cfg.Ext, "all") {
+						live = true
+					}
+				}
+				if !live || ctx.attr && !cfg.Attr {
+					continue
+				}
+				for _, p := range pays {
+					for _, sh := range shapes {
+						docs = append(docs, []byte(strings.ReplaceAll(ctx.tmpl, "§", strings.ReplaceAll(sh, "§", p))))
+					}
+				}
+			}
+			docsSub(r, "markup-in-sinks/"+cn, fmt.Sprintf("each of the %d sink templates of the safe-markup check with § replaced by %d ready-made tags carrying script/file URLs in %d line shapes (alone, on a first, last and inner line, twice), under %s: output tokenizes and no href/src holds a forbidden URL", len(sinkContexts), len(pays), len(shapes), cn),
+				cfg, docs, func(s *core.Sub, cv *core.Conv, w []byte) { c04Case(s, cv, w, "markup-in-sinks") })
+		}
+	}
 }
 
 func replayC04(r *core.Run, v *core.Violation) {
